@@ -176,9 +176,32 @@ func poseidonDrv(raw json.RawMessage, resp *drv.Response) error {
 				return nil
 			})
 		}
-		for ri, run := range []func(cfg *engine.Config) error{perm, hash} {
+		// an input whose OUTPUT has small elements (the permutation run backwards from a chosen output): "remainder + p" fits 64 bits
+		// there, so a final reduction that bounds its remainder by a width only - instead of the canonical check - shows
+		tgt := make([]*big.Int, 12)
+		for i := range tgt {
+			tgt[i] = drv.RandBelow(rng, bigP)
+			if i%2 == 0 || i >= 8 {
+				tgt[i] = big.NewInt(int64(1 + rng.Intn(1<<20)))
+			}
+		}
+		pre := o.GlPermInv(tgt)
+		if chk := o.GlPerm(pre); chk[0].Cmp(tgt[0]) != 0 || chk[11].Cmp(tgt[11]) != 0 {
+			return fmt.Errorf("the inverse permutation of the oracle does not invert")
+		}
+		permSmall := func(cfg *engine.Config) error {
+			return hc.Run(cfg, pre, func(api frontend.API, in []frontend.Variable) error {
+				var s poseidon.GoldilocksState
+				for i := range s {
+					s[i] = gl.NewVariable(in[i])
+				}
+				poseidon.NewGoldilocksChip(api).Poseidon(s)
+				return nil
+			})
+		}
+		for ri, run := range []func(cfg *engine.Config) error{perm, hash, permSmall} {
 			perm := run
-			what := []string{"one permutation", "HashNoPad of 11 inputs"}[ri]
+			what := []string{"one permutation", "HashNoPad of 11 inputs", "one permutation whose output has small elements"}[ri]
 			h := &engine.Config{Mode: engine.Native}
 			if err := perm(h); err != nil {
 				return fmt.Errorf("honest permutation rejected: %s", firstLine(err))
@@ -187,6 +210,12 @@ func poseidonDrv(raw json.RawMessage, resp *drv.Response) error {
 			idx := map[int]bool{}
 			for i := 1; i <= 40 && i <= total; i++ {
 				idx[i] = true
+			}
+			if ri == 2 { // the hints of the last layer produce the output
+				idx = map[int]bool{}
+				for i := total; i > total-60 && i >= 1; i-- {
+					idx[i] = true
+				}
 			}
 			for i := 0; i < 60+req.NRandom; i++ {
 				idx[1+rng.Intn(total)] = true
